@@ -108,6 +108,10 @@ def tasks(tier, seed):
     else:
         precs = [10, 53, [11, 24, 64, 113, 200][seed % 5]]
     out = []
+    # high precisions beyond the internal algorithm switches (600 bits: exp/log/trig series choice, cached tables)
+    for p in ([620, 1001] if not th else [601, 2001, 3001]):
+        for name in ('exp', 'log', 'sin', 'cos', 'tan', 'atan', 'sinh', 'cosh', 'tanh', 'sqrt', 'asin', 'expm1', 'log1p', 'sinpi', 'cospi', 'cbrt'):
+            out.append(('hp', name, p, th, seed))
     for p in precs:
         for name in FUNCS:
             out.append(('f1', name, p, th, seed))
@@ -127,6 +131,25 @@ def mag_of(ball):
     return abs(ball.m).bit_length() + ball.e
 
 
+def lt_scaled(a, ea, b, eb):
+    """a*2^ea < b*2^eb for non-negative ints, without shifting by astronomically large amounts"""
+    if a == 0:
+        return b > 0
+    if b == 0:
+        return False
+    la, lb = a.bit_length() + ea, b.bit_length() + eb
+    if la < lb:
+        return True if la < lb - 1 else _lt_shift(a, ea, b, eb)
+    if la > lb:
+        return False
+    return _lt_shift(a, ea, b, eb)
+
+
+def _lt_shift(a, ea, b, eb):
+    e = min(ea, eb)
+    return (a << (ea - e)) < (b << (eb - e))
+
+
 def decide(got_parts, ref, p, perpart):
     """got_parts: (re_tuple, im_tuple) raw; ref: CB.  returns ('ok'|'viol'|'undecided', lost_bits)"""
     parts = ((got_parts[0], ref.re), (got_parts[1], ref.im))
@@ -139,8 +162,15 @@ def decide(got_parts, ref, p, perpart):
     if not perpart:
         # scale = larger part
         l1, h1, e1 = bounds(ref.re); l2, h2, e2 = bounds(ref.im)
-        e = min(e1, e2)
-        scale_lo = max(l1 << (e1 - e), l2 << (e2 - e)); scale_hi = max(h1 << (e1 - e), h2 << (e2 - e)); scale_e = e
+        if abs(e1 - e2) > 100000:
+            # one part is astronomically larger: it is the scale
+            if (h1.bit_length() + e1) >= (h2.bit_length() + e2):
+                scale_lo, scale_hi, scale_e = l1, h1, e1
+            else:
+                scale_lo, scale_hi, scale_e = l2, h2, e2
+        else:
+            e = min(e1, e2)
+            scale_lo = max(l1 << (e1 - e), l2 << (e2 - e)); scale_hi = max(h1 << (e1 - e), h2 << (e2 - e)); scale_e = e
     for g, rb in parts:
         if g[1] == 0 and g[2] != 0:
             return 'viol', 999          # inf/nan where a finite value is expected
@@ -153,14 +183,11 @@ def decide(got_parts, ref, p, perpart):
             s_lo, s_hi, s_e = scale_lo, scale_hi, scale_e
         # allowed = 2^(4-p) * scale
         ae = s_e + 4 - p
-        e = min(d.e, ae)
-        dh, dl = d_hi << (d.e - e), d_lo << (d.e - e)
-        al, ah = s_lo << (ae - e), s_hi << (ae - e)
-        if dh < al or (dh == 0):
+        if d_hi == 0 or lt_scaled(d_hi, d.e, s_lo, ae):
             continue
-        if dl >= ah and dl > 0:
+        if d_lo > 0 and not lt_scaled(d_lo, d.e, s_hi, ae):
             status = 'viol'
-            lost = max(lost, dl.bit_length() - max(1, ah).bit_length() + 1)
+            lost = max(lost, (d_lo.bit_length() + d.e) - (max(1, s_hi).bit_length() + ae) + 1)
             continue
         if status != 'viol':
             status = 'undecided'
@@ -270,8 +297,8 @@ def t_f1(task):
             seen.add(t)
             if name in ('sinpi', 'cospi', 'expjpi', 'expj', 'sin', 'cos', 'tan', 'sec', 'csc', 'cot') and t[2] + t[3] > 70:
                 continue      # reduction of astronomically large arguments is covered up to 2^70 (3<<60 pi points)
-            if name in ('exp', 'sinh', 'cosh', 'expm1', 'sech', 'csch', 'tanh', 'coth') and t[2] + t[3] > 20:
-                continue      # overflow region not part of the accuracy statement
+            if name in ('exp', 'sinh', 'cosh', 'expm1', 'sech', 'csch', 'tanh', 'coth') and t[2] + t[3] > 45:
+                continue      # astronomically large results (exponent beyond 2^45) are not exercised
             check_one(acc, mp, name, ((t, fzero),), p, 1)
         if name != 'arg' or True:
             for z in cargs:
@@ -284,6 +311,30 @@ def t_f1(task):
                         continue
                 check_one(acc, mp, name, (z,), p, 1)
         acc.sample([name, rargs[3], p])
+    finally:
+        mp.prec = 53
+    return acc
+
+
+def t_hp(task):
+    _, name, p, th, seed = task
+    from mpmath import mp
+    acc = Acc()
+    mp.prec = p
+    try:
+        args = []
+        for m, e in ((1, 0), (1, 1), (3, 0), (1, 4), (1, 10), (1, 24), (1, 40), (3, 45), (5, 50), (10 ** 20, 0), (7, -3), (1, -1), (3, -2), (1, -10), (1, -p // 2), (1, -p - 5),
+                     ((1 << p) - 1, -p), ((1 << (p - 1)) + 1, -(p - 1)), (12345678901234567890123456789, -60), (1, 8), (25, 0), (1000003, 0)):
+            for s_ in (0, 1):
+                args.append(mk(s_, m, e))
+        args += near_pi_args(p)[:30]
+        for t in args:
+            if name in ('sinh', 'cosh', 'tanh', 'expm1') and t[2] + t[3] > 30:
+                continue
+            if name in ('sin', 'cos', 'tan', 'sinpi', 'cospi') and t[2] + t[3] > 70:
+                continue
+            check_one(acc, mp, name, ((t, fzero),), p, 1)
+        acc.sample([name, args[11], p])
     finally:
         mp.prec = 53
     return acc
